@@ -237,14 +237,26 @@ func (st *State) learn(c *Term) {
 			st.addSubst(a, b)
 		} else if b.Op == "select" && a.Op != "select" && !a.bound && !b.bound && b.Sort.IsBV() {
 			st.addSubst(b, a)
+		} else if !c.bound {
+			st.addSubst(c, True)
 		}
 	case "var":
 		if c.Sort == SBool {
 			st.addSubst(c, True)
 		}
 	case "not":
-		if c.Args[0].Op == "var" || c.Args[0].Op == "select" || c.Args[0].Op == "app" {
+		// the same condition evaluated again later on this path is known to be false
+		if !c.Args[0].bound && c.Args[0].Op != "and" && c.Args[0].Op != "or" {
 			st.addSubst(c.Args[0], False)
+		}
+		if c.Args[0].Op == "or" {
+			for _, a := range c.Args[0].Args {
+				st.learn(Not(a))
+			}
+		}
+	case "bvult", "bvule", "bvslt", "bvsle":
+		if !c.bound {
+			st.addSubst(c, True)
 		}
 	case "select", "app":
 		if c.Sort == SBool {
@@ -1080,7 +1092,9 @@ func (ex *Exec) mapUpdate(fr *Frame, x *ssa.MapUpdate, st *State) {
 	st.storeScalar(SBool, pa, True)
 	la := mapLenAddr(m)
 	st.storeScalar(BV(64), la, BVBin("bvadd", st.loadScalar(BV(64), la), Ite(old, BVc(0, 64), BVc(1, 64))))
-	if rg := Rg(m); rg.IsConst() {
+	if rg := Rg(m); rg.IsConst() && !k.IsConst() {
+		st.markOpaque(rg.Val.Int64())
+	} else if rg := Rg(m); rg.IsConst() {
 		id := rg.Val.Int64()
 		dup := false
 		for _, e := range st.mapKeys[id] {
@@ -1104,6 +1118,46 @@ func (ex *Exec) lookup(fr *Frame, x *ssa.Lookup, st *State) Value {
 	m := ex.get(fr, x.X).(*Term)
 	mt := x.X.Type().Underlying().(*types.Map)
 	k := keyToBV(ex.get(fr, x.Index), mt.Key())
+	v, present := ex.mapLookup(st, mt, Subst(m, st.substMap()), Subst(k, st.substMap()))
+	if x.CommaOk {
+		return &TupleV{Elems: []Value{v, present}}
+	}
+	return v
+}
+
+// mapLookup: value and presence of key k in map m.  For maps whose key set is completely known
+// (built in this execution / by package init with constant keys) a symbolic key is resolved by
+// an if-then-else chain over the known keys instead of array reasoning.
+func (ex *Exec) mapLookup(st *State, mt *types.Map, m, k *Term) (Value, *Term) {
+	if m.Op == "ite" {
+		v1, p1 := ex.mapLookup(st, mt, m.Args[1], k)
+		v2, p2 := ex.mapLookup(st, mt, m.Args[2], k)
+		return IteValue(m.Args[0], v1, v2), Ite(m.Args[0], p1, p2)
+	}
+	if m == NilAddr {
+		return ZeroValue(mt.Elem()), False
+	}
+	if rg := Rg(m); rg.IsConst() && m.Op == "mkaddr" && m.Args[1] == PNil {
+		if keys, ok := st.mapKeys[rg.Val.Int64()]; ok && !st.opaqueMaps[rg.Val.Int64()] && !k.IsConst() && len(keys) <= 64 {
+			var v Value = ZeroValue(mt.Elem())
+			present := False
+			for i := len(keys) - 1; i >= 0; i-- {
+				va, pa := mapEntry(m, keys[i])
+				pi := st.loadScalar(SBool, pa)
+				if pi.IsFalse() {
+					continue
+				}
+				hit := Eq(k, keys[i])
+				vi := st.Load(mt.Elem(), va)
+				if !pi.IsTrue() {
+					hit = And(hit, pi)
+				}
+				v = IteValue(hit, vi, v)
+				present = Or(hit, present)
+			}
+			return v, present
+		}
+	}
 	va, pa := mapEntry(m, k)
 	present := And(Neq(Rg(m), IntConst(0)), st.loadScalar(SBool, pa))
 	present = Subst(present, st.substMap())
@@ -1116,10 +1170,7 @@ func (ex *Exec) lookup(fr *Frame, x *ssa.Lookup, st *State) Value {
 			v = IteValue(present, v, ZeroValue(mt.Elem()))
 		}
 	}
-	if x.CommaOk {
-		return &TupleV{Elems: []Value{v, present}}
-	}
-	return v
+	return v, present
 }
 
 // range over maps with concretely known key sets (tables built in this
@@ -1321,4 +1372,13 @@ func (st *State) boundsOf(x *Term, signed bool) (lo, hi *big.Int, ok bool) {
 		return c, c, true
 	}
 	return lo, hi, lo != nil && hi != nil
+}
+
+func (st *State) markOpaque(id int64) {
+	n := make(map[int64]bool, len(st.opaqueMaps)+1)
+	for k, v := range st.opaqueMaps {
+		n[k] = v
+	}
+	n[id] = true
+	st.opaqueMaps = n
 }
